@@ -1,15 +1,253 @@
-(* C03/Props.v -- placeholder while the proofs are written *)
-From Coq Require Import ZArith List.
-From AK Require Import C03.Run.
+(* C03/Props.v -- the property theorems, nothing else.
+   C03  Left-recursive grammars are rejected; accepted grammars always terminate.
+
+   Models: LLP/RecCheck.v (LLParser._verify_grammar_structure_part2),
+   LLP/Table.v:nullables (_get_nullables), LLP/Parse.v (main loop of parse),
+   LLP/Build.v (constructor pipeline).  Specification: C03/Spec.v
+     Nullable R s        s =>* empty                     (inductive)
+     lstep R A B         A |> B :  A -> pre B post, pre all nullable
+     lpath R A B         |>+
+     left_recursive R    exists A, A |>+ A
+   with R = grules g (productions of the factorized grammar g, [] for terminals).
+   [part1_ok g terms start] = what _verify_grammar_structure_part1 and the
+   tokenizer guarantee before the check runs (terminals have no productions,
+   every production symbol is a terminal or a key, keys distinct, $START$ is
+   neither key nor terminal, $END$ is a terminal, the start symbol is a key);
+   part1 itself is outside the model, C03.Run evaluates [part1_okb] on every
+   generated grammar. *)
+From Coq Require Import ZArith List Bool Lia.
+From AK Require Import Common.Err LLP.Base LLP.Factor LLP.Table LLP.RecCheck LLP.Parse LLP.Build
+     C03.Spec C03.LemmasRC C03.LemmasParse C03.LemmasTerm C03.LemmasInst C03.LemmasNull C03.Run.
 Import ListNotations.
-Open Scope Z_scope.
+Open Scope nat_scope.
 
-(* E -> B ; A -> eps | y ; B -> A B x | x  (the witness of the defect repaired by e00f232) *)
+(* ------------------------------------------------------------------ 1. the recursion check *)
+
+(* The check never raises for a grammar without a cycle: whatever the order
+   [order] in which the outer loop visits the symbols (the code uses
+   sorted(prods_map), i.e. name order), whatever list [nulls] it is given as
+   long as every member is nullable. *)
+Theorem reccheck_sound : forall g terms nulls order,
+  terminals_have_no_rules g terms -> symbols_known g terms -> NoDup (gkeys g) ->
+  (forall s, mem s nulls = true -> Nullable (grules g) s) ->
+  rc_outer g nulls order terms = Err GrammarRec -> left_recursive (grules g).
+Proof. intros g terms nulls order H1 H2 H3. exact (outer_sound g terms nulls H1 H2 H3 order). Qed.
+Print Assumptions reccheck_sound.
+
+(* Every left-recursive grammar is rejected, for EVERY visiting order that
+   contains all the keys (in particular every assignment of names), provided
+   [nulls] contains every nullable symbol. *)
+Theorem reccheck_complete : forall g terms nulls order,
+  terminals_have_no_rules g terms -> symbols_known g terms -> NoDup (gkeys g) ->
+  (forall s, Nullable (grules g) s -> mem s nulls = true) ->
+  (forall s, In s (gkeys g) -> In s order) ->
+  left_recursive (grules g) -> rc_outer g nulls order terms = Err GrammarRec.
+Proof.
+  intros g terms nulls order H1 H2 H3 Hc Hord Hlr.
+  destruct (outer_total g terms nulls H1 H2 H3 order) as [E|E]; auto.
+  exfalso. exact (outer_complete g terms nulls H1 H2 H3 order Hc Hord E Hlr).
+Qed.
+Print Assumptions reccheck_complete.
+
+(* The step budget of the model's loop (rc_fuel g) is never exhausted and no
+   impossible state is reached: the outcome is Ok or GrammarIsRecursive. *)
+Theorem reccheck_total : forall g terms nulls order,
+  terminals_have_no_rules g terms -> symbols_known g terms -> NoDup (gkeys g) ->
+  rc_outer g nulls order terms = Ok tt \/ rc_outer g nulls order terms = Err GrammarRec.
+Proof. intros g terms nulls order H1 H2 H3. exact (outer_total g terms nulls H1 H2 H3 order). Qed.
+Print Assumptions reccheck_total.
+
+(* exactness for every visiting order *)
+Theorem reccheck_exact : forall g terms nulls order,
+  terminals_have_no_rules g terms -> symbols_known g terms -> NoDup (gkeys g) ->
+  nulls_exact g nulls ->
+  (forall s, In s (gkeys g) -> In s order) ->
+  (rc_outer g nulls order terms = Err GrammarRec <-> left_recursive (grules g)) /\
+  (rc_outer g nulls order terms = Ok tt <-> ~ left_recursive (grules g)).
+Proof. intros g terms nulls order H1 H2 H3. exact (outer_exact g terms nulls H1 H2 H3 order). Qed.
+Print Assumptions reccheck_exact.
+
+(* the list computed by _get_nullables is exact *)
+Theorem nullables_exact : forall g, NoDup (gkeys g) -> nulls_exact g (nullables g).
+Proof. exact nullables_exact_l. Qed.
+Print Assumptions nullables_exact.
+
+(* the check as the constructor calls it: name-sorted order, computed nullables *)
+Theorem rec_check_exact : forall g terms start,
+  part1_ok g terms start ->
+  (rec_check g terms (nullables g) = Err GrammarRec <-> left_recursive (grules g)) /\
+  (rec_check g terms (nullables g) = Ok tt <-> ~ left_recursive (grules g)).
+Proof.
+  intros g terms start [H1 [H2 [H3 _]]].
+  apply (rec_check_exact_l g terms (nullables g) H1 H2 H3). apply nullables_exact_l; auto.
+Qed.
+Print Assumptions rec_check_exact.
+
+(* the constructor (LLP/Build.v:build): once the factorization has produced g,
+   GrammarIsRecursive is raised exactly for left-recursive g and a parser is
+   returned exactly for the others.  (That g is left-recursive iff the user's
+   grammar is, is NOT proved: it is tested by the oracle on the user's grammar.) *)
+Theorem build_exact : forall ug terminals smart start g sfxs,
+  factorize ug terminals smart = Ok (g, sfxs) ->
+  part1_ok g (terminals ++ [END_TOKEN]) start ->
+  (build ug terminals smart start = Err GrammarRec <-> left_recursive (grules g)) /\
+  ((exists p, build ug terminals smart start = Ok p) <-> ~ left_recursive (grules g)).
+Proof.
+  intros ug terminals smart start g sfxs Hf P1.
+  destruct (rec_check_exact g (terminals ++ [END_TOKEN]) start P1) as [E1 E2].
+  unfold build. rewrite Hf. cbn [bind]. cbn [t_nulls make_tables].
+  destruct (rec_check g (terminals ++ [END_TOKEN]) (nullables g)) as [[]|e] eqn:E; cbn [bind].
+  - split; split; intro H.
+    + discriminate.
+    + exfalso. apply (proj1 E2); auto.
+    + apply E2; auto.
+    + eexists; reflexivity.
+  - split; split; intro H.
+    + inversion H; subst. apply E1; auto.
+    + f_equal. apply E1 in H. congruence.
+    + destruct H as [p Hp]. discriminate.
+    + exfalso. apply (proj2 E2) in H. discriminate.
+Qed.
+Print Assumptions build_exact.
+
+(* ------------------------------------------------------------------ 2. termination of parse *)
+
+(* Spine bound.  In every stack the loop can reach, the elements that start at
+   the same token position p (= the expansions made since the last token match,
+   with only empty completions in between) form a |> path read from the bottom,
+   carry pairwise different symbols and are at most #keys + 1 (the +1 is
+   $START$).  Stated for the productions xrules g start = g's productions plus
+   $START$ -> start $END$. *)
+Theorem spine_bound : forall (T : tables) terms start sfxs toks st p,
+  part1_ok (t_grammar T) terms start ->
+  ~ left_recursive (grules (t_grammar T)) ->
+  reach (fun s => mem s terms) (table_get T) sfxs toks start st ->
+  plinked (xrules (t_grammar T) start) (at_pos p st) /\
+  NoDup (map fsym (at_pos p st)) /\
+  length (at_pos p st) <= S (length (gkeys (t_grammar T))).
+Proof. intros T terms start sfxs toks st p P1 Hn Hr. exact (spine_concrete T terms start sfxs toks P1 Hn st p Hr). Qed.
+Print Assumptions spine_bound.
+
+(* hence the stack never grows beyond (#keys + 1) * (#tokens + 1) elements *)
+Theorem stack_depth_bound : forall (T : tables) terms start sfxs toks st,
+  part1_ok (t_grammar T) terms start ->
+  ~ left_recursive (grules (t_grammar T)) ->
+  reach (fun s => mem s terms) (table_get T) sfxs toks start st ->
+  length st <= S (length (gkeys (t_grammar T))) * S (length toks).
+Proof.
+  intros T terms start sfxs toks st P1 Hn Hr.
+  pose proof (reach_PINV (xrules (t_grammar T) start) (fun s => mem s terms) (table_get T) sfxs toks start
+                (table_sub_x T terms start P1) (init_in_x T start) st Hr) as I.
+  exact (depth_bound (xrules (t_grammar T) start) (fun s => mem s terms) toks start (Ux T) (Ux_all T start) st I
+           (not_lr_x T terms start P1 Hn)).
+Qed.
+Print Assumptions stack_depth_bound.
+
+(* parse terminates: 2^k loop iterations suffice, with the explicit k below
+   (B^(D+1), B = max_alts*(max_len+1)+1, D = (#keys+1)*(#tokens+1)) *)
+Theorem parse_terminates : forall (T : tables) terms start sfxs toks,
+  part1_ok (t_grammar T) terms start ->
+  ~ left_recursive (grules (t_grammar T)) ->
+  exists k,
+    k <= (max_alts (t_grammar T) * (max_len (t_grammar T) + 1) + 1)
+           ^ S (S (length (gkeys (t_grammar T))) * S (length toks)) /\
+    (forall st', run_pow (fun s => mem s terms) (table_get T) sfxs toks k (init_stack start) <> Running st') /\
+    parse (fun s => mem s terms) (table_get T) sfxs toks k start <> Err Hang.
+Proof.
+  intros T terms start sfxs toks P1 Hn. exists (parse_bound T start toks). split; [|split].
+  - exact (parse_bound_le T start toks).
+  - exact (parse_halts T terms start sfxs toks P1 Hn).
+  - exact (parse_no_hang T terms start sfxs toks P1 Hn).
+Qed.
+Print Assumptions parse_terminates.
+
+(* for every grammar the constructor accepts, parse returns a tree or raises a
+   parsing error on every input *)
+Theorem accepted_parse_terminates : forall ug terminals smart start p,
+  build ug terminals smart start = Ok p ->
+  part1_ok (p_grammar p) (p_terminals p) start ->
+  forall toks, exists k, p_parse p k toks <> Err Hang.
+Proof.
+  intros ug terminals smart start p Hb P1 toks.
+  unfold build in Hb. destruct (factorize ug terminals smart) as [[g sfxs]|e] eqn:Hf; cbn [bind] in Hb; [|discriminate].
+  cbn [t_nulls make_tables] in Hb.
+  destruct (rec_check g (terminals ++ [END_TOKEN]) (nullables g)) as [[]|e] eqn:E; cbn [bind] in Hb; [|discriminate].
+  inversion Hb; subst p. clear Hb. cbn [p_grammar p_terminals] in P1.
+  assert (Hn : ~ left_recursive (grules g)).
+  { apply (proj2 (rec_check_exact g (terminals ++ [END_TOKEN]) start P1)). exact E. }
+  destruct (parse_terminates (make_tables g (terminals ++ [END_TOKEN]) start) (terminals ++ [END_TOKEN]) start sfxs toks P1 Hn)
+    as [k [_ [_ Hk]]].
+  exists k. unfold p_parse. cbn [p_terminals p_tables p_sfxs p_start]. exact Hk.
+Qed.
+Print Assumptions accepted_parse_terminates.
+
+(* ------------------------------------------------------------------ 3. non-vacuity *)
+
+(* E -> B ; A -> eps | y ; B -> A B x | x  (A = the argument; the witness of the
+   defect repaired by e00f232: with A visited before B the old code accepted it) *)
 Definition witness (a : sym) : list (sym * list (list sym)) :=
-  [([69], [[[66]]]); (a, [[]; [[121]]]); ([66], [[a; [66]; [120]]; [[120]]])].
+  [([69%Z], [[[66%Z]]]); (a, [[]; [[121%Z]]]); ([66%Z], [[a; [66%Z]; [120%Z]]; [[120%Z]]])].
+Definition fg_of (ug : list (sym * list (list sym))) (terminals : list sym) : grammar :=
+  match factorize ug terminals false with Ok (g, _) => g | Err _ => [] end.
+Definition xy : list sym := [[120%Z]; [121%Z]].
 
+(* the current model raises GrammarIsRecursive for it under both namings *)
 Example witness_rejected_both_namings :
-  ctor_outcome (witness [65]) [[120]; [121]] false = Err GrammarRec /\
-  ctor_outcome (witness [90]) [[120]; [121]] false = Err GrammarRec.
+  ctor_outcome (witness [65%Z]) xy false = Err GrammarRec /\
+  ctor_outcome (witness [90%Z]) xy false = Err GrammarRec.
 Proof. vm_compute. split; reflexivity. Qed.
 Print Assumptions witness_rejected_both_namings.
+
+(* ... it satisfies the hypotheses of the theorems and IS left-recursive by the
+   inductive definition: B |> B through the nullable A *)
+Example witness_is_left_recursive :
+  part1_ok (fg_of (witness [65%Z]) xy) (xy ++ [END_TOKEN]) [69%Z] /\
+  left_recursive (grules (fg_of (witness [65%Z]) xy)).
+Proof.
+  split.
+  - apply part1_okb_ok. vm_compute. reflexivity.
+  - exists [66%Z]. apply lpath_one.
+    exists (mkRule [66%Z] [[65%Z]; [66%Z]; [120%Z]] 3%Z), [[65%Z]], [[120%Z]].
+    split; [|split].
+    + vm_compute. left. reflexivity.
+    + reflexivity.
+    + constructor; [|constructor].
+      apply Nullable_rule with (mkRule [65%Z] [] 1%Z).
+      * vm_compute. left. reflexivity.
+      * constructor.
+Qed.
+Print Assumptions witness_is_left_recursive.
+
+(* the same shape with a terminal in front of the recursive symbol
+   (B -> A x B | x): hypotheses hold, not left-recursive, accepted, and the
+   termination theorem applies to it with a nullable symbol present *)
+Definition harmless : list (sym * list (list sym)) :=
+  [([69%Z], [[[66%Z]]]); ([65%Z], [[]; [[121%Z]]]); ([66%Z], [[[65%Z]; [120%Z]; [66%Z]]; [[120%Z]]])].
+
+Example harmless_accepted :
+  part1_ok (fg_of harmless xy) (xy ++ [END_TOKEN]) [69%Z] /\
+  ~ left_recursive (grules (fg_of harmless xy)) /\
+  mem [65%Z] (nullables (fg_of harmless xy)) = true /\
+  (exists p, build harmless xy false [69%Z] = Ok p).
+Proof.
+  assert (P1 : part1_ok (fg_of harmless xy) (xy ++ [END_TOKEN]) [69%Z]).
+  { apply part1_okb_ok. vm_compute. reflexivity. }
+  split; [exact P1|]. split; [|split].
+  - apply (proj2 (rec_check_exact _ _ _ P1)). vm_compute. reflexivity.
+  - vm_compute. reflexivity.
+  - destruct (build harmless xy false [69%Z]) as [p|e] eqn:E.
+    + exists p. reflexivity.
+    + exfalso. revert E. vm_compute. discriminate.
+Qed.
+Print Assumptions harmless_accepted.
+
+(* a reachable stack with two elements starting at the same position (E and B
+   expanded before any token is matched): the spine bound is not vacuous *)
+Example spine_nonvacuous :
+  let g := fg_of harmless xy in
+  let T := make_tables g (xy ++ [END_TOKEN]) [69%Z] in
+  let toks := mk_toks [([121%Z], [121%Z]); ([120%Z], [120%Z]); ([120%Z], [120%Z])] in
+  exists st, run_pow (fun s => mem s (xy ++ [END_TOKEN])) (table_get T) [] toks 1 (init_stack [69%Z]) = Running st /\
+             length (at_pos 0 st) = 3.
+Proof. vm_compute. eexists. split; reflexivity. Qed.
+Print Assumptions spine_nonvacuous.
